@@ -308,7 +308,7 @@ Section Values.
   Definition char_ok (b : N) : bool := (0 <? b)%N && (b <? 256)%N.
   Definition scalar (a : value) : bool :=
     match a with VSeq _ _ | VMap _ _ => false | _ => true end.
-  (* keys admitted in maps by the model: anything that is not a container *)
+  (* keys allowed in maps by the model: anything that is not a container *)
   Definition key_ok (a : value) : bool := scalar a.
 
   (* the keys of one map have one type (ktype of the Table / Tree) *)
